@@ -232,3 +232,16 @@ def c05_5(ctx: Ctx) -> RuleResult:
                         construct=f"{g.name}: weights applied")
     res.floor = 2
     return res
+
+
+@rule(P)
+def c05_6(ctx: Ctx) -> RuleResult:
+    """Shared with C03.1: failure detection reads objective column 0 only, so a NaN anywhere in a
+    realization's objectives or constraints has to be propagated to the whole row first."""
+    from .c03 import c03_1
+
+    r = c03_1(ctx)
+    for i in r.instances:
+        i.rule = "C05.6"
+    r.rule, r.title = "C05.6", "the sort filter never ranks a failed realization: a NaN in any objective or constraint is propagated to the column its failure test reads"
+    return r
